@@ -175,7 +175,8 @@ Record head := {
   hd_start : startline; hd_headers : headers; hd_chunked : bool; hd_persisted : bool
 }.
 
-(* what survives from one message to the next on the same parser object *)
+(* chunk parameters and trailers of the message being parsed (before bb92345
+   they survived from one message to the next on the same parser object) *)
 Record carry := { cy_parms : option parms; cy_trails : option headers }.
 
 (* parser attributes when .ended and not .errored *)
@@ -198,6 +199,7 @@ Definition finish_msg (hd : head) (cy : carry) (body : bytes) : msg :=
   {| g_start := hd_start hd; g_headers := hd_headers hd; g_chunked := hd_chunked hd;
      g_persisted := hd_persisted hd; g_parms := cy_parms cy; g_trails := cy_trails cy; g_body := body |}.
 
+Definition init_carry : carry := {| cy_parms := None; cy_trails := None |}.
 Definition start_state (cy : carry) : mstate := {| m_phase := PStart false; m_carry := cy |}.
 
 Definition msg_stage (k : kind) (s : mstate) (b : bytes) : sres mstate (option msg) :=
@@ -232,6 +234,8 @@ Definition msg_stage (k : kind) (s : mstate) (b : bytes) : sres mstate (option m
     | LFail e => Fail e
     | LMore h' r => Step {| m_phase := PLeader sl h'; m_carry := cy |} r None
     | LDone h' r =>
+      (* parseBody starts: del self.body[:]; self.parms = None; self.trails = None (bb92345) *)
+      let cy := init_carry in
       let len := head_length k sl h' in
       let hd := {| hd_start := sl; hd_headers := h'; hd_chunked := te_chunked h';
                    hd_persisted := head_persisted k sl h' len |} in
@@ -276,7 +280,6 @@ Definition msg_stage (k : kind) (s : mstate) (b : bytes) : sres mstate (option m
 (* Note: a chunked response with a forced zero length (HEAD, 204, 304, 1xx) is
    still parsed as chunked by parseBody ("if self.chunked" comes first). *)
 
-Definition init_carry : carry := {| cy_parms := None; cy_trails := None |}.
 Definition init_state : pstate mstate := Live (start_state init_carry) [].
 
 (* ------------------------------------------------------- parsing while .closed *)
@@ -420,6 +423,14 @@ Definition check_case (c : case) : bool :=
   | (Live s b, ms) => msgs_eqb ms (c_msgs c) && option_eqb exn_eqb None (c_err c) && bytes_eqb b (c_left c)
   end.
 
+(* what a WSGI application sees of each request when the real http.Server is
+   fed a request sequence in fragments: (method, target, body) *)
+Record scase := { s_reads : list bytes; s_seen : list (bytes * bytes * bytes) }.
+Definition seen_of (reads : list bytes) : list (bytes * bytes * bytes) :=
+  map (fun m => (sl_method (g_start m), sl_url (g_start m), g_body m)) (snd (run_case Req reads false)).
+Definition check_scase (c : scase) : bool :=
+  list_eqb (pair_eqb (pair_eqb bytes_eqb bytes_eqb) bytes_eqb) (seen_of (s_reads c)) (s_seen c).
+
 (* a history case *)
 Record hcase := {
   h_kind : kind;
@@ -480,3 +491,13 @@ Fixpoint branches_reads (k : kind) (p : pstate mstate) (reads : list bytes) : li
     let (l, p') := branches_run k (S (length (b ++ c))) s (b ++ c) in l ++ branches_reads k p' cs
   end.
 Definition case_branches (c : case) : list nat := branches_reads (c_kind c) init_state (c_reads c).
+
+(* the C13 check drives the parsers directly and through the real WSGI server *)
+Inductive c13case := KMsg (c : case) | KServer (c : scase).
+Definition check_c13 (c : c13case) : bool :=
+  match c with KMsg c => check_case c | KServer c => check_scase c end.
+Definition c13_branches (c : c13case) : list nat :=
+  match c with
+  | KMsg c => case_branches c
+  | KServer c => branches_reads Req init_state (s_reads c)
+  end.
